@@ -253,7 +253,22 @@ def run_C02(ctx):
         v["detail"] += f"  [flags: {v['verdict'].get('note')}]"
     for p in panics:
         violations.append({"check": "C02.panic", "text": p["text"], "detail": f"anthem panicked under {p['flags']}: {p['panic']}", "record": p})
+    # reference grammar (spec/Syntax.tla): what a specification / user-guide / outline TEXT means as a tree
+    prec = V.tlc_generate(ctx, "precfol", 160 if ctx.quick() else 472, 1, {"GEN_STRIDE": 3 if ctx.quick() else 1})
+    exp = {c["id"]: c["exp"] for c in prec}
+    grecs = V.run_harness(ctx, "gamma", [{"id": c["id"], "f": c["f"]} for c in prec], tag="-prec")
+    gok = []
+    for r in grecs:
+        if r["kind"] == "gamma":
+            gok.append({"id": r["id"], "kind": "gamma", "text": r["text"], "f": r["f"], "exp": exp[r["id"]]})
+        else:
+            violations.append({"check": "C02.text_parses_to_reference_tree", "text": r.get("text", ""),
+                               "detail": "a formula printed by the reference grammar is not accepted: " + str(r.get("error", r.get("panic", "")))[:200], "record": r})
+    gverd = V.tlc_validate(ctx, "TraceSem", gok, {}, workers=4)
+    gstats, gviol = V.collect(gverd, gok, "C02.text")
+    violations += gviol
     coverage = {
+        "reference_grammar_texts": len(gok),
         "programs": len(usable), "cases_generated": len(cases), "tasks_refused_by_anthem": refused, "families_checked": stats["verdicts"],
         "disagreements_checked": stats["verdicts"] - stats["skip"], "evaluations": stats["evaluations"], "unknown_evaluations": stats["unknown"],
         "distinct_nontrivial": len(stats["nontrivial_ids"]), "vacuous_or_constant": stats["vacuous"], "skipped": skipped,
